@@ -79,5 +79,23 @@ lazy_static! {
     pub(crate) static ref DRIFT_TABLES: DriftTables = serde_json::from_slice(TABLE_BYTES).unwrap();
 }
 
+// Verification hook (read-only; compiled only with `--cfg alpha_g_verif`): the in-memory
+// drift tables as ((time [s], radius [m], correction [rad]) rows, z upper bound [m]).
+#[cfg(alpha_g_verif)]
+#[allow(clippy::type_complexity)]
+pub fn verif_drift_tables() -> Vec<(Vec<(f64, f64, f64)>, f64)> {
+    DRIFT_TABLES
+        .0
+        .iter()
+        .map(|(table, z)| {
+            (
+                table.0.iter().map(|&(t, r, c)| (t.value, r.value, c.value)).collect(),
+                z.value,
+            )
+        })
+        .collect()
+}
+
+
 #[cfg(test)]
 mod tests;
